@@ -54,6 +54,8 @@ func c15Bodies() []string {
 		// a well-formed object holding a number no float64 can hold: undecodable as a whole (one invalid_json, nothing runs)
 		`{"src":"json-body","num":1e400}`, `{"src":"json-body","nested":{"v":"x","big":-1e999},"list":["a"]}`, `{"src":"json-body","num":9007199254740993}`, `{"src":"json-body","list":["a",1e999]}`, `{"src":"json-body","list":[null,{"deep":[true,-1e400]}]}`, `{"list":["a","b"],"src":"json-body","nested":{"v":"x"}}`,
 		// white space around a JSON value is space, tab, line feed and carriage return
+		// a byte order mark is not white space: encoding/json refuses a document that starts with one
+		"\xef\xbb\xbf"+c15JSON, "\xef\xbb\xbf{}", "\ufeff "+c15JSON,
 		c15JSON+"\r\n", "{}\r\n", "\r\n\t "+c15JSON+" \t\r\n\r", "{}\r",
 		c15Form, c15Multipart, `src=%zz`, `src=ok&bad=%`, `src=a;only_b=b`, ``, `src=`, `list=one`, `arr[]=`, `arr[]=x&arr[]=y`, `src=+sp+&list=a%20b`, `&&=&`)
 	return out
